@@ -43,6 +43,7 @@ type FuncSpec struct {
 	FreshFields bool
 	DeleteSites map[string]deleteSites
 	InsertOnly  map[string][]string // local map variable -> tags: stores never overwrite a present key
+	RejectOnHit map[string][]string // local map variable -> tags: a comma-ok lookup that finds its key ends in a non-nil (error) return
 	Unclaimed   map[string]string   // obligation-name suffix -> reason
 	Lets        []*LetSpec
 }
@@ -163,7 +164,7 @@ func NewSpecDB() *SpecDB {
 }
 
 var clauseKW = map[string]bool{"requires": true, "ensures": true, "ghostensures": true, "modifies": true, "decreases": true, "loop": true,
-	"inline": true, "trusted": true, "pure": true, "tag": true, "noframe": true, "opaque": true, "unclaimed": true, "let": true, "letpost": true, "oncallback": true, "insertonly": true, "freshfields": true, "deletesites": true, "prefer": true}
+	"inline": true, "trusted": true, "pure": true, "tag": true, "noframe": true, "opaque": true, "unclaimed": true, "let": true, "letpost": true, "oncallback": true, "insertonly": true, "freshfields": true, "deletesites": true, "prefer": true, "rejectonhit": true}
 var topKW = map[string]bool{"func": true, "functype": true, "extern": true, "pred": true, "table": true, "specfn": true,
 	"axiom": true, "lemma": true, "ghostfield": true, "iface": true, "const": true, "ghostvar": true, "globalinv": true, "guardedby": true, "readers": true, "writers": true, "callers": true, "globalwriters": true, "mapranges": true, "equiv": true}
 
@@ -368,6 +369,16 @@ func (db *SpecDB) LoadFile(path string, pkg string) error {
 					cur.InsertOnly = map[string][]string{}
 				}
 				cur.InsertOnly[n] = tags
+			}
+		case "rejectonhit":
+			// rejectonhit [Cnn] m : whenever a comma-ok lookup m[k] finds the key, the function returns an error (its last
+			// result is non-nil) before the next loop iteration begins
+			tags, names := splitTags(rest)
+			for _, n := range strings.Fields(strings.ReplaceAll(names, ",", " ")) {
+				if cur.RejectOnHit == nil {
+					cur.RejectOnHit = map[string][]string{}
+				}
+				cur.RejectOnHit[n] = tags
 			}
 		case "deletesites":
 			// deletesites [Cnn] m N : the local map m has exactly N delete(m, k) sites in this function
